@@ -29,6 +29,15 @@ class CallMixin(ExprMixin):
     def ev_Call(self, node, st):
         self.cur_line = node.lineno
         f = node.func
+        if any(k.arg is None for k in node.keywords):
+            # `**kwargs` forwarding of the function's own catch-all parameter: opaque pass-through
+            own = getattr(self, "own_kwarg", None)
+            if all(k.arg is not None or (isinstance(k.value, ast.Name) and k.value.id == own) for k in node.keywords):
+                node = ast.Call(func=node.func, args=node.args, keywords=[k for k in node.keywords if k.arg is not None])
+                ast.copy_location(node, f if False else node.func)
+                node.lineno = getattr(node.func, "lineno", self.cur_line)
+                node.col_offset = getattr(node.func, "col_offset", 0)
+                f = node.func
         if any(isinstance(a, ast.Starred) for a in node.args) or any(k.arg is None for k in node.keywords):
             raise UnsupportedError(f"*args/**kwargs in call at line {node.lineno}")
         # logging and print: dropped (arguments still evaluated for attribute-safety)
@@ -43,6 +52,7 @@ class CallMixin(ExprMixin):
             name = f.id
             if name == "cls" and self.info and self.info.get("kind") == "classmethod" and "." in self.contract.key:
                 name = self.contract.key.split(".")[0]
+            name = self.contract.call_alias.get(name, name)
             if name in S.CONTRACTS:
                 yield from self.call_by_key(S.CONTRACTS[name], None, node, st)
                 return
@@ -455,7 +465,13 @@ class CallMixin(ExprMixin):
             if an is None:
                 continue
             if isinstance(an, (ast.Name, ast.Attribute, ast.Subscript)):
-                for _ in self.assign(an, post_env[name], st, keep_fresh=True):
+                val = post_env[name]
+                if val.ty.kind == "opt" and isinstance(an, ast.Name) and an.id in st.locals and st.locals[an.id].ty.kind != "opt":
+                    # the caller's variable is not optional: the callee must not have turned it into None
+                    self.oblige("safe", st, z3.Not(V.opt_isnone(val)), f"argument `{name}` is still not None after the call", node.lineno)
+                    st.assume(z3.Not(V.opt_isnone(val)))
+                    val = V.opt_val(val)
+                for _ in self.assign(an, val, st, keep_fresh=True):
                     pass
             # a temporary (display, call result) passed to a mutating callee: nothing to write back
 
@@ -585,7 +601,10 @@ class CallMixin(ExprMixin):
             if node.keywords:
                 raise UnsupportedError(f"keyword arguments to .{attr}() at line {node.lineno}")
             # re-read receiver: argument evaluation cannot change it (args are pure here) but states forked
-            if kind == "opaque" and ("Opaque." + attr) in S.CONTRACTS:
+            if kind in ("str", "strlit") and ("Str." + attr) in S.CONTRACTS:
+                recv_s = O.coerce(v, T.STR) if kind == "strlit" else v
+                yield from self.call_contract(S.CONTRACTS["Str." + attr], recv_s, vals, {}, s, node, recv_node=recv_node)
+            elif kind == "opaque" and ("Opaque." + attr) in S.CONTRACTS:
                 kwv = {}
                 yield from self.call_contract(S.CONTRACTS["Opaque." + attr], v, vals, kwv, s, node, recv_node=recv_node)
             elif kind in ("opaque", "name", "strlit") and attr in OPAQUE_STR_METHODS:
@@ -621,6 +640,10 @@ class CallMixin(ExprMixin):
 
     def mutate(self, v, attr, args, recv_node, st, node):
         self.check_mutable_target(recv_node, st, node)
+        if attr in ("update", "extend", "difference_update", "intersection_update") and args and args[0].ty.kind == "opt":
+            self.oblige("safe", st, z3.Not(V.opt_isnone(args[0])), f"argument of .{attr}() is not None (TypeError)", node.lineno)
+            st.assume(z3.Not(V.opt_isnone(args[0])))
+            args = [V.opt_val(args[0])] + list(args[1:])
         facts = []
         kind = v.ty.kind
         result = V.NONE
@@ -907,9 +930,12 @@ class CallMixin(ExprMixin):
 
     def bi_getattr(self, node, st):
         # getattr(obj, "literal"[, default])
-        if len(node.args) < 2 or not (isinstance(node.args[1], ast.Constant) and isinstance(node.args[1].value, str)):
+        a1 = node.args[1] if len(node.args) >= 2 else None
+        if isinstance(a1, ast.Name) and a1.id in st.locals and O.is_strlit(st.locals[a1.id]):
+            a1 = ast.Constant(value=st.locals[a1.id].ty.name)       # loop variable of an unrolled constant tuple
+        if a1 is None or not (isinstance(a1, ast.Constant) and isinstance(a1.value, str)):
             raise UnsupportedError(f"getattr with a non-literal attribute name at line {node.lineno}")
-        attr = node.args[1].value
+        attr = a1.value
         fake = ast.Attribute(value=node.args[0], attr=attr, ctx=ast.Load(), lineno=node.lineno, col_offset=node.col_offset)
         if len(node.args) == 2:
             yield from self.ev_value(fake, st)
